@@ -15,6 +15,18 @@ from . import sym
 from .values import *
 
 IDX = z3.Int("i!")          # canonical bound index used to key element functions
+BOUND = [IDX] + [z3.Int(f"i!{d}") for d in range(1, 6)]     # one per nesting depth of big operators
+_DEPTH = [0]
+
+
+def is_bound_var(t):
+    return any(t.get_id() == b.get_id() for b in BOUND)
+
+
+def keying():
+    """True while an element function is being evaluated at a bound variable only to name a big
+    operator: nothing met there is a fact about the program state."""
+    return _DEPTH[0] > 0
 
 
 class SList:
@@ -139,6 +151,17 @@ def qm(I):
     return I.ghost["qm"]
 
 
+def _consts_of(t):
+    out, todo = [], [t]
+    while todo:
+        e = todo.pop()
+        if z3.is_const(e):
+            out.append(e)
+        else:
+            todo.extend(e.children())
+    return out
+
+
 class ChildFamily:
     """The children c(0) .. c(k-1) of unknown class; ghost symbols are functions of the index."""
     def __init__(self, I, name, length):
@@ -163,7 +186,7 @@ class ChildFamily:
             o.ghost["eval_failed"] = self.efF(idx)
             o.ghost["indexed"] = (self, idx)
             self.cache[key] = o
-            if idx.get_id() != IDX.get_id():
+            if not keying() and not any(is_bound_var(c) for c in _consts_of(idx)):
                 qm(I).add_index(idx, self.length)
         return self.cache[key]
 
@@ -183,8 +206,16 @@ _BIG = {}
 
 
 def _big(kind, body_fn, sort):
-    body = z3.simplify(body_fn(IDX))
-    key = (kind, body.sexpr())
+    d = _DEPTH[0]
+    if d >= len(BOUND):
+        from .interp import Unsupported
+        raise Unsupported("G-mode: big operators nested too deeply")
+    _DEPTH[0] = d + 1
+    try:
+        body = z3.simplify(body_fn(BOUND[d]))
+    finally:
+        _DEPTH[0] = d
+    key = (kind, d, body.sexpr())
     if key not in _BIG:
         f = z3.Function(f"{kind}#{len(_BIG)}", sym.I, sort)
         _BIG[key] = (f, body)
@@ -194,6 +225,8 @@ def _big(kind, body_fn, sort):
 def bigsum(I, body_fn, n):
     """sum_{i<n} body(i); unfolding instances are registered with the QM."""
     f = _big("bigsum", body_fn, sym.R)
+    if keying():
+        return f(n)
     q = qm(I)
     key = ("bigsum", f.name())
     if key not in I.ghost.setdefault("big_registered", set()):
@@ -210,6 +243,8 @@ def bigsum(I, body_fn, n):
 
 def bigprod(I, body_fn, n):
     f = _big("bigprod", body_fn, sym.R)
+    if keying():
+        return f(n)
     q = qm(I)
     key = ("bigprod", f.name())
     if key not in I.ghost.setdefault("big_registered", set()):
@@ -245,6 +280,8 @@ def register_zero_lemma(I, body_fn, n):
     """prod_{i<n} body(i) = 0 as soon as one factor with index < n is 0 (induction on n; a
     trusted real-arithmetic fact, instantiated at the index terms in play)."""
     f = _big("bigprod", body_fn, sym.R)
+    if keying():
+        return
     key = ("zero", f.name(), z3.simplify(n).sexpr())
     if key in I.ghost.setdefault("big_registered", set()):
         return
@@ -312,6 +349,8 @@ def bigprod_without(I, body_fn, i, n):
         _BIG[key] = (z3.Function(f"bigprodwo#{len(_BIG)}", sym.I, sym.I, sym.R), body)
     f = _BIG[key][0]
     rkey = ("bigprodwo", f.name(), z3.simplify(n).sexpr())
+    if keying():
+        return f(i, n)
     if rkey not in I.ghost.setdefault("big_registered", set()):
         I.ghost["big_registered"].add(rkey)
         qm(I).foralls.append((n, lambda t: f(t, n) == bigprod(I, without_entry(body_fn, t), z3.simplify(n - 1))))
@@ -322,6 +361,8 @@ def bighash(I, body_fn, n):
     """hash of a sequence as a function of its element hashes (uninterpreted; pointwise equal
     sequences of equal length hash equally - extensionality link)."""
     f = _big("bighash", body_fn, sym.I)
+    if keying():
+        return f(n)
     q = qm(I)
     akey = (f.name(), z3.simplify(n).get_id())
     if akey not in q.app_keys:
